@@ -37,7 +37,7 @@ CHECKS = {
         "must be the model's, the final service state must match; the property predicates are evaluated on the observed client calls. Beyond the listed clauses, UploadLife models the life cycle "
         "of one MultiPartUpload object (initiate / write_part / finalise / cancel own, other, all / list_active, foreign and sibling-key uploads in the service) with its design invariants; every "
         "5-call behaviour is replayed on the real class against a stateful service stand-in (conformance only: differences are drift, never a violation).",
-   ref="5/C18", note=TB + "fake boto3 client and fake distributed.Variable/Lock with their documented semantics (no cluster in the sandbox); seams are placed on a harness subclass of MultiPartUpload, a traced stand-in for the module's _state dict and the Lock factory, not in the repository"),
+   ref="5/C18", note=TB + "fake boto3 client; the exhaustive interleavings use stand-ins for distributed.Variable/Lock with their documented semantics, a real in-process cluster runs the same protocol under its own scheduling; seams are placed on a harness subclass of MultiPartUpload, a traced stand-in for the module's _state dict and the Lock factory, not in the repository"),
  "C19": dict(
    technique="TLA+ history model of the CRS / transformer caches (CrsCache) model-checked by TLC; TLC-generated histories replayed in fresh interpreters and validated by TLC; equality/hash/token/pickle laws (ValueLaws) evaluated by TLC on observations of families of real objects",
    text="CrsCache models the construction cache (key rule, string form of the first creator), object lifetimes and the identity-keyed transformer cache; TLC checks on the whole bounded "
@@ -176,6 +176,34 @@ CHECKS = {
    ref="5/C15", note=TB + "read-back fidelity rests on GDAL as the independent reader named by the property"),
 }
 
+
+# what the case domains gained after the seeded rounds / the mutation score (appended to the level text)
+GROWTH = {
+ "C02": " Operation parameters take values on both sides of every default (zero / asymmetric pads, buffers in tenths of a pixel, zoom factors 1/2, 1, 2, 3), every crop spelling, crops by region "
+        "(pixel / world geometry, bounding box, another GeoBox); an Observe action marks boxes whose views were READ before the operation (caches), and every operation runs under each call spelling "
+        "(method / module-level function / defaulted argument).",
+ "C03": " Added: rasters of thousands of pixels related by sub-tolerance rotations / shears (exact ring probing with a per-case denominator), near-tolerance residues between rasters tens of thousands "
+        "of pixels apart, lon/lat sources reaching the poles under kilometre tiles of polar projections.",
+ "C04": " Block assembly is also run after an extract-and-overwrite history (results must not alias the blocks or the caller's inputs).",
+ "C05": " Added: flat / thin images padded by whole tiles, irregular source chunking, destinations holding an earlier file, pixel patterns that decide the compressed tile sizes (constant / noise).",
+ "C06": " Configurations now include three write credits with a three-chunk middle partition, several sub-minimum partitions in front of a writer and partitions without any chunk (leading, trailing, "
+        "adjacent, all); the dask phase runs ~3000 configurations in parallel.",
+ "C07": " Added: collections of one member type / of one member / nested, the dateline option on geometries away from the dateline combined with densification.",
+ "C11": " Added: a shape together with a numeric resolution, output pixels hundreds of source pixels wide with tolerances stricter than the default on sources whose edge lies just past a coarse grid line.",
+ "C12": " Added: one grid tiled twice (every pair of 7 tilings, regular tile specs), sources wrapping the globe under regional rasters.",
+ "C13": " Added: sibling reprojections with other fill parameters evaluated as ONE graph (dask.compute(a, b, c)).",
+ "C14": " Added: one geobox cache shared by a box query and repeated polygon queries.",
+ "C15": " Added: pixel patterns with whole uniform blocks (valid zeros, nodata, a constant).",
+ "C16": " Added: sub-pixel offsets between boxes hundreds to tens of thousands of pixels apart.",
+ "C17": " Emptiness is specified for regions reversed on any number of axes; index-typed results must BE integers (a float bound is an outcome, not rounded).",
+ "C18": " Added: S3Prep (attempts to write one object in sequence, some abandoned: prep_client must reset the shared Variable unconditionally - the conditional variant yields the expected counterexample) "
+        "and replays on a cluster where an abandoned attempt left its upload id behind; sink finalisation over an existing destination; 40 rounds on a REAL in-process dask.distributed cluster "
+        "(Client(processes=False): real Variable / Lock, the scheduler's own interleavings) validated by the same predicates.",
+ "C19": " Added: tilings whose flattened chunk lists coincide (other cut, zero-sized chunks); every object law (equality, token, hash, pickle) is evaluated once more AFTER USE (all views read, caches filled).",
+ "C20": " Added: a magnitude dimension (world side x 2^mag) for fits and decompositions; values a power of two away from an integer on either side of the DOCUMENTED DEFAULT tolerances of snap_scale / snap_affine "
+        "with the tolerances defaulted or explicit; defaults of Bin1D; align_up_pow2 of non-positive numbers.",
+}
+
 NOT_YET = "check not built yet (work in progress); see DESIGN.md"
 checks, na = [], []
 for p in props:
@@ -191,7 +219,7 @@ for p in props:
         "evidence_file": f"/verif/evidence/{pid}.json",
         "replay_cmd_template": f"./check {pid} --replay {{path}}",
         "engine": "tlc+trace-validation",
-        "level_claimed": {"category": "model_checking", "text": c["text"], "design_ref": c["ref"]},
+        "level_claimed": {"category": "model_checking", "text": c["text"] + GROWTH.get(pid, ""), "design_ref": c["ref"]},
         "level_note": c["note"],
         "technique": c["technique"],
     })
